@@ -2,6 +2,11 @@ package props
 
 import (
 	"fmt"
+	"os"
+	"path/filepath"
+
+	"github.com/robfig/soy"
+	"github.com/robfig/soy/soyhtml"
 	"regexp"
 	"strings"
 	"testing"
@@ -135,6 +140,17 @@ func checkParseError(name, src string, faultLine int, single bool, what string) 
 	if !strings.Contains(err.Error(), want) {
 		return fmt.Errorf("%s at line %d: message %q does not contain the position %q it carries", what, faultLine, err.Error(), want)
 	}
+	// the same input compiled as a bundle fails with the same position
+	var cerr error
+	if pn := catch(func() { _, cerr = soy.NewBundle().AddTemplateString(name, src).Compile() }); pn != nil {
+		return fmt.Errorf("%s at line %d: Bundle.Compile panicked: %v", what, faultLine, pn)
+	}
+	if cerr == nil {
+		return fmt.Errorf("%s at line %d: the parser rejects the file (%v) but Bundle.Compile accepts it", what, faultLine, err)
+	}
+	if cfp := errortypes.ToErrFilePos(cerr); cfp == nil || cfp.File() != fp.File() || cfp.Line() != fp.Line() {
+		return fmt.Errorf("%s at line %d: the parser reports %s:%d, Bundle.Compile reports %v", what, faultLine, fp.File(), fp.Line(), cerr)
+	}
 	return nil
 }
 
@@ -144,6 +160,31 @@ func numbered(src string) string {
 		fmt.Fprintf(&b, "%3d| %s\n", i+1, strings.TrimRight(l, "\r"))
 	}
 	return b.String()
+}
+
+// compileFiles writes the sources to the given paths (under dir) and adds them with AddTemplateFile, in order.
+func compileFiles(dir string, paths, srcs []string) (c *compiled, err error, panicked interface{}) {
+	os.RemoveAll(dir)
+	defer os.RemoveAll(dir)
+	for i, p := range paths {
+		os.MkdirAll(filepath.Dir(p), 0o755)
+		if werr := os.WriteFile(p, []byte(srcs[i]), 0o644); werr != nil {
+			return nil, nil, fmt.Sprintf("harness: cannot write %s: %v", p, werr)
+		}
+	}
+	panicked = catch(func() {
+		b := soy.NewBundle()
+		for _, p := range paths {
+			b.AddTemplateFile(p)
+		}
+		reg, e := b.Compile()
+		if e != nil {
+			err = e
+			return
+		}
+		c = &compiled{soyhtml.NewTofu(reg), reg}
+	})
+	return
 }
 
 var c19rec *recorder
@@ -217,6 +258,17 @@ func checkC19(c C19Case) Verdict {
 				failing = []string{"{call ns.d1.t}", "{param x: $a /}", "{param y}", "content {$a}", "{/param}", "{/call}"}
 			}
 		}
+		// a third shape: the call itself fails while it evaluates a param value (after a content param)
+		alsoOK := -1
+		if (c.Fault/16)%2 == 1 {
+			if depth > 0 {
+				failing = []string{"{call ns.d1.t}", "{param y}", "content {$a}", "{/param}", "{param x: $a.nokey.deeper /}", "{/call}"}
+				alsoOK = 4
+			} else {
+				failing = []string{"{call .other}", "{param p: $a.nokey.deeper /}", "{/call}"}
+				alsoOK = 1
+			}
+		}
 		body := append(append(append([]string{}, c.Lines[:at]...), failing...), c.Lines[at:]...)
 		src, start := c.file(body)
 		names, srcs := []string{c.Name}, []string{src}
@@ -232,7 +284,30 @@ func checkC19(c C19Case) Verdict {
 			names = append(names, calleeName)
 			srcs = append(srcs, fmt.Sprintf("{namespace ns.d%d}\n\n\n/**\n * @param? x\n * @param? y */\n{template .t}\n{if $x}x{/if}{if $y}y{/if}\n%s\n{/template}\n", d, inner))
 		}
-		cb, err, pn := compileBundle(names, srcs, nil)
+		// for part of the cases the files are real files added by path: the path is the file name of the error
+		wantFile := c.Name
+		distinct := true
+		for i := range names {
+			for j := range names[:i] {
+				distinct = distinct && names[i] != names[j]
+			}
+		}
+		var (
+			cb  *compiled
+			err error
+			pn  interface{}
+		)
+		if distinct && hashCase(c)%2 == 0 {
+			dir := filepath.Join(outDir(), "c19-files-"+shard())
+			paths := make([]string, len(names))
+			for i := range names {
+				paths[i] = filepath.Join(dir, strings.TrimPrefix(names[i], "/"))
+			}
+			wantFile = paths[0]
+			cb, err, pn = compileFiles(dir, paths, srcs)
+		} else {
+			cb, err, pn = compileBundle(names, srcs, nil)
+		}
 		if err != nil || pn != nil {
 			return bad(true, "bundle rejected: %v %v\n%s", err, pn, numbered(src))
 		}
@@ -247,12 +322,12 @@ func checkC19(c C19Case) Verdict {
 		if fp == nil {
 			return bad(true, "render error carries no file position: %v", rr.err)
 		}
-		if fp.File() != c.Name {
-			return bad(true, "render error names file %q; the entry template is defined in %q (failure %d calls deep)\n%v", fp.File(), c.Name, depth, trunc(rr.err.Error(), 300))
+		if fp.File() != wantFile {
+			return bad(true, "render error names file %q; the entry template is defined in %q (failure %d calls deep)\n%v", fp.File(), wantFile, depth, trunc(rr.err.Error(), 300))
 		}
 		// the failing command's line, or the line of a block command that encloses it
 		wantLine := start + at
-		okLine := fp.Line() == wantLine
+		okLine := fp.Line() == wantLine || alsoOK >= 0 && fp.Line() == wantLine+alsoOK // (the {call} line, or the line of the param whose value failed)
 		if !okLine {
 			// enclosing block openers among the preceding body lines
 			open := []int{}
